@@ -178,7 +178,7 @@ def run(ck):
     private = E.M(lambda t: "StoreEntry::flags" in E.mentions(t) and "KEY_PRIVATE" in E.mentions(t), "flags&KEY_PRIVATE")
     ck.require_fact("U2.parse-gates", fl, ret_true, E.m_is_mem("key") & E.m_mentions("tmpe"), True, "return true")
     ck.require_fact("U2.parse-gates", fl, ret_true, private, False, "return true")
-    ck.require_response("U2.size-mismatch-rejected", pe, E.m_cmp("==", E.m_is_mem("StoreEntry::swap_file_sz"), E.m_is_ref("expectedSize")), False,
+    ck.require_response("U2.size-mismatch-rejected", pe, (E.m_cmp("==", E.m_is_mem("StoreEntry::swap_file_sz"), E.m_is_ref("expectedSize")) | E.m_cmp("==", E.m_is_ref("expectedSize"), E.m_is_mem("StoreEntry::swap_file_sz"))), False,
                         ev_return(E.m_const(0)), "return false", term_kinds=("IfStmt",), why="(a partially written cache file would be indexed)")
     rd = facts.fn("Fs::Ufs::RebuildState::rebuildFromDirectory")
     add = ev_call("Fs::Ufs::RebuildState::addIfFresh")
@@ -193,7 +193,7 @@ def run(ck):
             ck.violation("U2.dir-gates", "U2|expected-size", s.where(), "rebuildFromDirectory no longer passes the on-disk file size to storeRebuildParseEntry")
     rl = facts.fn("Fs::Ufs::RebuildState::rebuildFromSwapLog")
     fl = ck.flow(rl)
-    op_add = E.m_cmp("==", E.m_is_mem("StoreSwapLogData::op"), m_enum("SWAP_LOG_ADD"))
+    op_add = E.m_cmp("==", E.m_is_mem("StoreSwapLogData::op"), m_enum("SWAP_LOG_ADD")) | E.m_cmp("==", m_enum("SWAP_LOG_ADD"), E.m_is_mem("StoreSwapLogData::op"))
     private = E.M(lambda t: "StoreSwapLogData::flags" in E.mentions(t) and "KEY_PRIVATE" in E.mentions(t), "flags&KEY_PRIVATE")
     for m, v in [(ck.m_result_of(rl, "StoreSwapLogData::sane"), True), (op_add, True), (ck.m_result_of(rl, "Fs::Ufs::UFSSwapDir::validFileno"), True),
                  (private, False), (ck.m_result_of(rl, "Fs::Ufs::UFSSwapDir::mapBitTest"), False)]:
